@@ -184,10 +184,32 @@ def random_inval(tier, seed, n=None):
                     a["cloc1"], a["clocso"] = 0, 0
                 steps.append({"op": "req", "rq": rq(u=u, m=m, usp=r.randrange(0, 6)), "ans": [a]})
             else:
+                # some stored responses allow stale-while-revalidate and their background validation is slow, so that
+                # an unsafe request can arrive while it is in flight
+                first = ans(ccp=1, ma=r.choice([100, 100, 3]), etag=1, vary=r.choice([[], [2]]), swr=r.choice([NONE, 60]))
+                slow304 = ans(k="304", st=304, ccp=1, ma=100, etag=1, lat=r.choice([0, 3, 3]))
                 steps.append({"op": "req", "rq": rq(u=u, sel=list(r.choice(SELS[:4])), usp=r.randrange(0, 6)),
-                              "ans": [ans(ccp=1, ma=r.choice([100, 100, 3]), etag=1, vary=r.choice([[], [2]])), ans(ccp=1, ma=100, etag=2)]})
-            steps.append({"op": "tick", "d": r.choice([0, 1, 5])})
+                              "ans": [r.choice([first, slow304]), ans(ccp=1, ma=100, etag=2)]})
+            steps.append({"op": "tick", "d": r.choice([0, 1, 1, 5])})
         out.append({"id": "rndinv/%06d" % i, "backend": "fs" if i % 10 == 0 else "mem", "opt": {}, "steps": steps, "grp": "", "spv": 0})
+    return out + inval_during_bg(tier)
+
+
+def inval_during_bg(tier):
+    """an unsafe request arrives while the background revalidation of a stale-while-revalidate serve is in flight"""
+    out = []
+    i = 0
+    for m in (METHODS[:9] if tier == "thorough" else ["POST", "DELETE", "PROPPATCH", "X-UNKNOWN"]):
+        for lat in (2, 4):
+            for bgk in ("304", "full"):
+                bg = ans(k="304", st=304, ccp=1, ma=100, etag=1, lat=lat) if bgk == "304" else ans(ccp=1, ma=100, etag=2, lat=lat)
+                steps = [{"op": "req", "rq": rq(u=0), "ans": [ans(ccp=1, ma=3, swr=60, etag=1)]}, {"op": "tick", "d": 5},
+                         {"op": "req", "rq": rq(u=0), "ans": [bg]}, {"op": "tick", "d": 1},
+                         {"op": "req", "rq": rq(u=0, m=m), "ans": [ans(st=200, ccp=0, etag=0)]}, {"op": "tick", "d": lat + 1},
+                         {"op": "req", "rq": rq(u=0), "ans": [ans(ccp=1, ma=100, etag=3)]}, {"op": "tick", "d": 1},
+                         {"op": "req", "rq": rq(u=0), "ans": [ans(ccp=1, ma=100, etag=3)]}]
+                out.append({"id": "invbg/%03d" % i, "backend": "fs" if i % 3 == 0 else "mem", "opt": {}, "steps": steps, "grp": "", "spv": 0})
+                i += 1
     return out
 
 
@@ -293,7 +315,9 @@ def concurrent(tier, seed, n=None):
     out = []
     for i in range(n):
         steps = []
-        stored = ans(ccp=1, ma=r.choice([3, 5]), swr=r.choice([NONE, 30, 30]), etag=1, vary=r.choice([[], [2]]), lm=r.choice([NONE, 40]))
+        et = r.choice([1, 1, 0])  # without an ETag the conditional request is built from Last-Modified alone
+        stored = ans(ccp=1, ma=r.choice([3, 5]), swr=r.choice([NONE, 30, 30]), etag=et, vary=r.choice([[], [2]]),
+                     lm=40 if et == 0 else r.choice([NONE, 40]))
         for u in (0, 1):
             for a_ in (1, 2):
                 steps.append({"op": "req", "rq": rq(u=u, sel=[0, 0, a_, 0]), "ans": [stored]})
@@ -436,6 +460,19 @@ def kv_cuts(tier, seed, n=None):
                     {"op": "set_kill", "k": 1, "v": 1, "cut": step}, {"op": "get", "k": 1}, {"op": "keys", "p": -1},
                     {"op": "reopen"}, {"op": "get", "k": 1}, {"op": "set", "k": 1, "v": 0}, {"op": "get", "k": 1}, {"op": "keys", "p": -1}]
                 out.append({"id": "kill/%s-%d-%d-%d" % (be, prev, step, i), "backend": be, "keys": keys, "vals": vals, "ops": ops})
+    return out + kv_stress(tier)
+
+
+def kv_stress(tier):
+    """free-running writers / readers / deleter on one key (schedules below the granularity of the step hooks)"""
+    out = []
+    key = base64.b64encode(b"stress-key").decode()
+    for i, be in enumerate(["fs", "fsenc", "mem"] * (1 if tier == "quick" else 4)):
+        for dele in (0, 1):
+            vals = [{"len": 200000, "seed": 31 + i}, {"len": 70000, "seed": 37 + i}, {"len": 5, "seed": 41}]
+            out.append({"id": "stress/%s-%d-%d" % (be, dele, i), "backend": be, "keys": [key], "vals": vals,
+                        "ops": [{"op": "stress", "k": 0, "n": 3, "p": dele, "cut": 250 if tier == "quick" else 1500}, {"op": "set", "k": 0, "v": 2},
+                                {"op": "get", "k": 0}]})
     return out
 
 
